@@ -39,9 +39,20 @@ type LifeOp struct {
 type lifePlugin struct {
 	mu    sync.Mutex
 	calls int
+	mode  string        // how Configure behaves in the coming session: "" | "error" | "block"
+	hold  chan struct{} // "block": Configure returns when this is closed
 }
 
 func (p *lifePlugin) Configure(context.Context, string, string, string) (api.EventMask, error) {
+	p.mu.Lock()
+	mode, hold := p.mode, p.hold
+	p.mu.Unlock()
+	switch mode {
+	case "error":
+		return 0, errors.New("verif: configuration rejected")
+	case "block":
+		<-hold
+	}
 	return 0, nil
 }
 func (p *lifePlugin) Synchronize(context.Context, []*api.PodSandbox, []*api.Container) ([]*api.ContainerUpdate, error) {
@@ -145,8 +156,38 @@ func (r *lifeRun) dial(string) (net.Conn, error) {
 	case "cut-write":
 		rt.Cut.CutAfterWrite(int64(k))
 		go handshake(rt, "")
-	case "healthy":
+	case "healthy", "configure-rejected":
 		go handshake(rt, "")
+	case "slow-configure":
+		// the runtime takes its time before it configures the plugin: Start must not return before
+		go func() {
+			if rt.WaitRegistered(2*time.Second) != nil {
+				return
+			}
+			time.Sleep(150 * time.Millisecond)
+			r.ev("configure.sent")
+			ctx, cancel := context.WithTimeout(context.Background(), 2*time.Second)
+			defer cancel()
+			if _, err := rt.Plugin.Configure(ctx, &api.ConfigureRequest{RuntimeName: "verif", RuntimeVersion: "1",
+				RegistrationTimeout: 2000, RequestTimeout: 2000}); err == nil {
+				rt.Plugin.Synchronize(ctx, &api.SynchronizeRequest{})
+			}
+		}()
+	case "drop-in-configure":
+		// the connection goes away while the plugin's Configure handler is still running
+		go func() {
+			if rt.WaitRegistered(2*time.Second) != nil {
+				return
+			}
+			go func() {
+				ctx, cancel := context.WithTimeout(context.Background(), 2*time.Second)
+				defer cancel()
+				rt.Plugin.Configure(ctx, &api.ConfigureRequest{RuntimeName: "verif", RuntimeVersion: "1",
+					RegistrationTimeout: 2000, RequestTimeout: 2000})
+			}()
+			time.Sleep(20 * time.Millisecond)
+			rt.Close()
+		}()
 	}
 	return a, nil
 }
@@ -205,9 +246,24 @@ func (r *lifeRun) exec(sc LifeScenario, w *rec.Writer) error {
 			r.mu.Lock()
 			r.next, r.nextK = op.Arg, op.K
 			r.mu.Unlock()
+			p.mu.Lock()
+			p.mode, p.hold = "", nil
+			switch op.Arg {
+			case "configure-rejected":
+				p.mode = "error"
+			case "drop-in-configure":
+				p.mode, p.hold = "block", make(chan struct{})
+			}
+			hold := p.hold
+			p.mu.Unlock()
 			r.ev("op", "i", i, "op", "Start", "arg", op.Arg, "k", op.K)
 			cls, ms, txt := r.timed(func() error { return st.Start(context.Background()) })
 			r.ev("res", "i", i, "op", "Start", "class", cls, "ms", ms, "errtext", txt)
+			if hold != nil {
+				// the handler of the lost session finishes only now: its result belongs to nobody
+				close(hold)
+				time.Sleep(5 * time.Millisecond)
+			}
 			if cls == "hung" {
 				aborted = true // Start holds the stub's lock: nothing else can be done with this stub
 			}
